@@ -408,6 +408,24 @@ macro_rules! impl_fam {
                     let z = y.clone();
                     one(x, y, z, same)
                 }
+                /// a zero-sized type whose Hash impl writes something
+                #[derive(PartialEq, Eq, PartialOrd, Debug, Clone)]
+                struct Marker;
+                impl Hash for Marker {
+                    fn hash<H: Hasher>(&self, h: &mut H) {
+                        h.write_u32(0xC0FFEE);
+                    }
+                }
+                fn hashed<T: Hash + Eq>(x: T) -> String {
+                    let mut h0 = DefaultHasher::new();
+                    x.hash(&mut h0);
+                    let a = $rc::new(x);
+                    let mut h1 = DefaultHasher::new();
+                    a.hash(&mut h1);
+                    let mut set = std::collections::HashSet::new();
+                    set.insert($rc::clone(&a));
+                    format!(" hash_like_value={} {:x} set_lookup_by_value={}", h0.finish() == h1.finish(), h1.finish(), set.contains(&*a))
+                }
                 fn disp<T: std::fmt::Display>(x: T, w: usize, p: usize) -> String {
                     let a = $rc::new(x);
                     format!(" display={}|{:>9}|{:*<9}|{:^9}|{:+}|{:09.3}|{:.2}|{:w$.p$}|", a, a, a, a, a, a, a, a, w = w, p = p)
@@ -416,9 +434,9 @@ macro_rules! impl_fam {
                 match ty % 7 {
                     0 => run(F[a as usize % 6], F[b as usize % 6], same) + &disp(F[a as usize % 6] * 1.23456, 5 + b as usize % 8, a as usize % 5),
                     1 => run(F[a as usize % 6] as f32, F[b as usize % 6] as f32, same) + &disp(F[b as usize % 6] as f32 * 0.5, 4 + a as usize % 9, b as usize % 4),
-                    2 => run(a, b, same) + &disp(a as i16 - 100, 3 + b as usize % 6, 0) + &disp(format!("s{}", b), 2 + a as usize % 7, 1 + b as usize % 3),
-                    3 => run((), (), same),
-                    4 => run([a, b, 3], [b, a, 3], same),
+                    2 => run(a, b, same) + &disp(a as i16 - 100, 3 + b as usize % 6, 0) + &disp(format!("s{}", b), 2 + a as usize % 7, 1 + b as usize % 3) + &hashed(a) + &hashed(format!("k{}", b)),
+                    3 => run((), (), same) + &hashed(()) + &hashed([0u8; 0]) + &hashed(Marker) + &hashed((Marker, [0u16; 0])),
+                    4 => run([a, b, 3], [b, a, 3], same) + &hashed([a, b, 3]) + &run(Marker, Marker, same),
                     5 => run(Some(F[a as usize % 6]), if b % 5 == 0 { None } else { Some(F[b as usize % 6]) }, same),
                     _ => run((a, F[b as usize % 6] as f32), (b, F[a as usize % 6] as f32), same),
                 }
